@@ -241,8 +241,16 @@ def w_tyrving(mon, ctx, rnd, i, n):
                 marks.update(range(max(0, c - 2), c + 3))
         # marks numerically equal to 40 / 60 / 80 / 300 (the JS list of hand-timing distances is compared with something)
         marks.update(x for x in (4000, 6000, 8000, 30000, 10000, 11000, 20000) if lo <= x <= hi)
-        for m in sorted(marks):
+        for mi, m in enumerate(sorted(marks)):
             forms = c11.forms_time(m) if kind == 'race' else c11.forms_len(m)
+            if mi % 5 == 2:
+                # history: calls that both sides refuse (age outside the table with a hand-timed / electronic / junk mark, a junk
+                # mark at a tabulated age) come right before good ones - whatever a refused call leaves behind on either side
+                # (a timing kind set and not restored, a half-built calculator) must not reach the next caller
+                hand = '%d.%d' % (m // 100, (m % 100) // 10)
+                for bad in ([g, age + 40, ev, hand], [g, 3, ev, '%d' % (m // 100)], [g, age, ev, 'x'], [g, age + 40, ev, m / 100],
+                            [g, age, ev, hand + '.'], [g, None, ev, hand])[mi % 3::3]:
+                    mon.submit('tyrvingScore', bad, tag='refused-before-good')
             for name, p in forms:
                 mon.submit('tyrvingScore', [g, age, ev, p])
             if kind == 'race' and m % 10 == 0:
